@@ -14,7 +14,8 @@
 (***************************************************************************)
 EXTENDS Split, TLC, Json
 
-CONSTANTS MaxLen, Method      \* "phonetic" | "fixed"
+CONSTANTS MaxLen, Method,     \* "phonetic" | "fixed"
+          MaxLearn            \* longest class string run with a learned choice
 VARIABLE text
 Tokens == IF Method = "phonetic" THEN {"L*", "Q*", "N*", "C*", "B*"} ELSE {"k*", "Q*", "n*", "C*"}
 Init == text = <<>>
@@ -47,6 +48,25 @@ Scenario ==
                D |-> <<[op |-> "new", cfg |-> Cfg(FALSE, FALSE, TRUE)], [op |-> "type", text |-> Typed]>>],
      checks |-> <<Check("A", "B"), Check("C", "D")>>]
 
+\* "same length, order and PRESELECTION": the preselected index is computed from the learned choices, so the pair is also run
+\* with a choice learned for the very text - each side in its own user-data directory: type, commit another candidate than the
+\* preselected one, type the same text again; the two second lists must relate like the first ones (phonetic method: the
+\* fixed one learns nothing).  Each scenario makes its own contexts (they write the user files).
+CfgH(smart, h) == Cfg(smart, TRUE, FALSE)
+CheckAt(on, off, i) == [k |-> "curl", on |-> <<on, i>>, off |-> <<off, i>>, parts |-> Typed,
+                        wordempty |-> (S.word = <<>>), translit |-> (Method = "phonetic")]
+Learned ==
+    [mc |-> "Script", site |-> "curl", variants |-> 2, reuse |-> FALSE,
+     vars |-> [P |-> Back(S.pre), W |-> Back(S.word), Q |-> Back(S.trail)],
+     runs |-> [A |-> <<[op |-> "new", cfg |-> CfgH(TRUE, "hA"), home |-> "hA"],  [op |-> "type", text |-> Typed],
+                       [op |-> "commit", idx |-> "other"], [op |-> "type", text |-> Typed]>>,
+               B |-> <<[op |-> "new", cfg |-> CfgH(FALSE, "hB"), home |-> "hB"], [op |-> "type", text |-> Typed],
+                       [op |-> "commit", idx |-> "other"], [op |-> "type", text |-> Typed]>>],
+     checks |-> <<CheckAt("A", "B", 1), CheckAt("A", "B", 3)>>]
+EmitLearned == (Method = "phonetic" /\ HasQuote(text) /\ S.word # <<>> /\ Len(text) <= MaxLearn)
+                  => PrintT(<<"REPLAY", ToJson(Learned)>>)
+
 \* only strings that contain a quote are interesting for the pair (the others are C05/C06 material)
-Emit == (text # <<>> /\ HasQuote(text)) => PrintT(<<"REPLAY", ToJson(Scenario)>>)
+Emit == /\ (text # <<>> /\ HasQuote(text)) => PrintT(<<"REPLAY", ToJson(Scenario)>>)
+        /\ EmitLearned
 =============================================================================
